@@ -368,6 +368,49 @@ def run_c08(chk, F, tier):
                        "checked on the CFG with must-pass-through. Decides coverage only, not pruning logic.")
 
 
+def config_preserved(chk, F, ws, rule):
+    """R09d: configuration mirrors / workspace roots are inputs of the analysis: clear() must leave them alone.
+    A clear() written as `*self = Self { f: take(&mut self.f), ..Self::new() }` must carry every such field over."""
+    import prov
+    idx = index_types(F)
+    n = 0
+    for (sx, f), reason in sorted(EXEMPT_CLEAR.items()):
+        if "allocator" in reason:
+            continue
+        X = [x for x in idx if short(x) == sx]
+        if not X:
+            raise RuleBroken("exempt type %s not found" % sx)
+        X = X[0]
+        cid = idx[X]["clear"]
+        b = F.bodies[cid]
+        w = ws.writes(cid, 1)
+        n += 1
+        key = "%s.%s" % (sx, f)
+        if "*" not in w:
+            chk.check(f not in w, rule, key,
+                      "clear() writes the configuration field `%s` of %s (%s): a reindex would silently change the "
+                      "configuration the analysis runs under" % (f, sx, reason), b.loc(),
+                      sample={"rule": rule, "field": key, "verdict": "untouched by clear"})
+            continue
+        # whole-object assignment: the aggregate operand of f must derive from the old value of self.f
+        names = [x[0] for x in field_names(F, X)]
+        P = prov.Prov(F, source=lambda bb_, r: ({("OLD", [e[2] for e in r[2] if isinstance(e, tuple) and e[0] == "f"][0])}
+                                              if r[0] == "place" and r[1] == 1 and any(isinstance(e, tuple) and e[0] == "f" for e in r[2]) else None))
+        ok = False
+        seen = False
+        for blk in b.blocks:
+            for st in blk[1]:
+                if st[0] == "a" and st[2][0] == "agg" and st[2][1] == "adt" and st[2][2] == X:
+                    seen = True
+                    op = st[2][4][names.index(f)]
+                    ok = ("OLD", f) in P.operand_labels(b, op)
+        chk.check(seen and ok, rule, key,
+                  "clear() rebuilds %s as a whole but does not carry over the configuration field `%s` (%s): every "
+                  "reindex resets it until the next update_config" % (sx, f, reason), b.loc(),
+                  sample={"rule": rule, "field": key, "verdict": "carried over by the whole-object rebuild"})
+    return n
+
+
 def run_c09(chk, F, tier):
     chk.rule("R09a", "for every impl LuaIndex for X: fields written by any &mut-self method are written by `clear` "
                      "(exempt: configuration mirrors and workspace roots, which are inputs)")
@@ -388,6 +431,9 @@ def run_c09(chk, F, tier):
     n = delegation(chk, F, "R09b", "clear")
     chk.floor("DbIndex LuaIndex fields", n, 14)
     reindex_order(chk, F, "R09c")
+    chk.rule("R09d", "clear() preserves the configuration mirrors and workspace roots (inputs, not facts)")
+    n = config_preserved(chk, F, ws, "R09d")
+    chk.floor("configuration fields", n, 4)
     chk.explanation = ("Write-set analysis: every index field the analysis can populate is reset by clear(); "
                        "DbIndex::clear reaches every index; reindex clears before re-adding the full Vfs file list.")
 
